@@ -768,3 +768,76 @@ Proof.
   exists 50, 10, (mkTls 0 (Some 4) 0), [KWrote 100; KWrote 100; KWrote 100; KWrote 100].
   vm_compute. discriminate.
 Qed.
+
+(** ** A response ended by trailers toward an H2 client *)
+Lemma h2_prepare_end_last fuel : forall w max cs fs bl w',
+  h2_prepare fuel w max (map BChunk cs ++ [BEnd]) = (fs, bl, w') ->
+  existsb f_end fs = true ->
+  exists bf, fs = bf ++ [mkF [] 0 true] /\ existsb f_end bf = false.
+Proof.
+  induction fuel as [|f IH]; intros w max cs fs bl w' H E.
+  - cbn in H. inversion H; subst. discriminate E.
+  - destruct cs as [|d r].
+    + cbn [map app h2_prepare] in H.
+      destruct f; cbn in H; inversion H; subst; exists []; split; reflexivity.
+    + cbn [map app] in H. cbn [h2_prepare] in H.
+      destruct ((Z.of_nat (List.length d) <=? w)%Z && (List.length d <=? max)) eqn:Efit.
+      * destruct (h2_prepare f (w - Z.of_nat (List.length d))%Z max (map BChunk r ++ [BEnd])) as [[fs1 bl1] w1] eqn:E1.
+        inversion H; subst. cbn [existsb f_end orb] in E.
+        destruct (IH _ _ _ _ _ _ E1 E) as (bf & -> & Hb).
+        exists (mkF d 0 false :: bf). split; [reflexivity | cbn; exact Hb].
+      * destruct (0 <? w)%Z eqn:Ew.
+        -- set (pl := Z.to_nat (Z.min (Z.of_nat max) w)) in *.
+           assert (Hbl : (match skipn pl d with [] => map BChunk r ++ [BEnd] | _ => BChunk (skipn pl d) :: map BChunk r ++ [BEnd] end)
+                         = map BChunk (match skipn pl d with [] => r | a => a :: r end) ++ [BEnd])
+             by (destruct (skipn pl d); reflexivity).
+           rewrite Hbl in H.
+           destruct (Z.of_nat max <? w)%Z.
+           ++ destruct (h2_prepare f (w - Z.of_nat pl)%Z max _) as [[fs1 bl1] w1] eqn:E1.
+              inversion H; subst. cbn [existsb f_end orb] in E.
+              destruct (IH _ _ _ _ _ _ E1 E) as (bf & -> & Hb).
+              exists (mkF (firstn pl d) 0 false :: bf). split; [reflexivity | cbn; exact Hb].
+           ++ inversion H; subst. cbn in E. discriminate E.
+        -- inversion H; subst. discriminate E.
+Qed.
+
+Lemma existsb_trailers_end n fs :
+  existsb is_trailers (h2_out_with_trailers n fs) = true -> existsb f_end fs = true.
+Proof.
+  induction fs as [|f r IH]; cbn; [discriminate|].
+  destruct (f_end f); cbn; [reflexivity|]. exact IH.
+Qed.
+
+Lemma out_no_end n bf :
+  existsb f_end bf = false ->
+  h2_out_with_trailers n bf = map (fun f => OData (f_payload f) false) bf.
+Proof.
+  induction bf as [|f r IH]; cbn; [reflexivity|].
+  destruct (f_end f); cbn; [discriminate|]. intros H. f_equal. apply IH, H.
+Qed.
+
+Lemma h2_trailers_after_body_proof :
+  forall fuel w max cs n,
+    n <> 0 ->
+    let '(fs, bl, _) := h2_prepare fuel w max (map BChunk cs ++ [BEnd]) in
+    let out := h2_out_with_trailers n fs in
+    existsb is_trailers out = true ->
+    exists body_frames,
+      out = map (fun f => OData (f_payload f) false) body_frames ++ [OTrailers n] /\
+      payload_of body_frames = List.concat cs /\ bl = [].
+Proof.
+  intros fuel w max cs n Hn.
+  destruct (h2_prepare fuel w max (map BChunk cs ++ [BEnd])) as [[fs bl] w'] eqn:E.
+  intros out Ht. subst out.
+  pose proof (existsb_trailers_end n fs Ht) as He.
+  destruct (h2_prepare_end_last fuel w max cs fs bl w' E He) as (bf & -> & Hb).
+  pose proof (h2_converter_exact_proof fuel max [] cs true) as X.
+  cbn [h2_rounds] in X. destruct X as (_ & _ & X).
+  specialize (X w cs). rewrite E in X. destruct (X He) as (Hbl & Hp).
+  exists bf. split; [|split].
+  - unfold h2_out_with_trailers. rewrite map_app. fold (h2_out_with_trailers n bf).
+    rewrite (out_no_end n bf Hb). cbn [map f_end andb].
+    destruct n; [contradiction|]. reflexivity.
+  - unfold payload_of in *. rewrite flat_map_app in Hp. cbn in Hp. rewrite app_nil_r in Hp. exact Hp.
+  - exact Hbl.
+Qed.
